@@ -43,15 +43,34 @@ Print Assumptions C10_failed_op_restores.
    remaining ones preserved.  Proved for every refresh to a NOT-YET-KEPT revision (the usual refresh; retain >= 2, any in-use
    answer, any failure position j, also after the last task): the result is the state before `minus` exactly the revisions
    of the discard-snap tasks among the first j tasks (their kept entries, mounts and RevertStatus marks go; current, active,
-   channel, flags, times, configuration, link and the order of the others are as before).  Missing: refresh to an
-   already-kept revision after a discard (undoLinkSnap's countMissingRevs arithmetic with a non-zero count) — compared
-   with the model on the real code by the driver's sweep, not proved. *)
+   channel, flags, times, configuration, link and the order of the others are as before).  For a refresh to an ALREADY KEPT
+   revision (undoLinkSnap's countMissingRevs arithmetic with a non-zero count) the same conclusion is proved in
+   C10_failed_after_gc_kept_partial below, under the explicit hypothesis that the garbage collection picks neither the
+   target nor the current revision (C12 proves that for not-yet-kept targets only; for kept targets it is a computable
+   condition on gc_revs, and the driver compares the discarded set with gc_revs on the real code). *)
 Theorem C10_failed_after_gc_partial : forall (s : st) (o : op) (j : nat) (retain : Z) (inuse : N -> bool),
   wf s -> okind o = ORefresh -> accepts o s = true -> ~ In (orev o) (seq s) -> (2 <= retain)%Z -> cfg_guard o s ->
   forget (run_change o (S j) (tasks_for o s retain inuse) s)
   = forget (minus (map snd (filter is_discard (firstn j (tasks_for o s retain inuse)))) s).
 Proof. exact failed_after_gc. Qed.
 Print Assumptions C10_failed_after_gc_partial.
+
+Theorem C10_failed_after_gc_kept_partial : forall (s : st) (o : op) (j : nat) (retain : Z) (inuse : N -> bool),
+  wf s -> okind o = ORefresh -> accepts o s = true -> In (orev o) (seq s) -> cfg_guard o s ->
+  ~ In (orev o) (gc_revs s (orev o) retain inuse) -> ~ In (cur s) (gc_revs s (orev o) retain inuse) ->
+  forget (run_change o (S j) (tasks_for o s retain inuse) s)
+  = forget (minus (map snd (filter is_discard (firstn j (tasks_for o s retain inuse)))) s).
+Proof. exact failed_after_gc_kept. Qed.
+Print Assumptions C10_failed_after_gc_kept_partial.
+
+(* the shape that exercises it: kept [1,2,3,4,5], current 5, retain lowered to 2, refresh to the kept revision 4 failing
+   after the discards of 1 and 2: kept [3,4,5], the order of the survivors as before *)
+Example C10_after_gc_kept_example :
+  let s := mkSt [1;2;3;4;5] 5 true 1 false false false false false 0 5 0 [] 7 [] [1;2;3;4;5] 5 in
+  let o := mk_refresh 4 0 9 in let ts := tasks_for o s 2 no_inuse in
+  accepts o s = true /\ gc_revs s 4 2 no_inuse = [1; 2] /\
+  seq (run_change o (S (length ts)) ts s) = [3; 4; 5] /\ cur (run_change o (S (length ts)) ts s) = 5.
+Proof. vm_compute. repeat split; reflexivity. Qed.
 
 (* finding 7 (key fail-after-discard): kept [1,2], retain 2, refresh to the new revision 3 failing after the
    discard-snap of revision 1 completed: the refresh is undone but kept = [2], mounted = [2] *)
